@@ -44,6 +44,7 @@ func genRenderData(r *vk.RNG, maxContainers int) []renderStream {
 		// result carries as T >= 2^63; it is printed as the date it is and has its place in the order
 		base = -int64(r.Range(1, 6)) * 1e9
 	}
+	spread := r.Chance(1, 10)
 	for ci := 0; ci < nc; ci++ {
 		name := fmt.Sprintf("ctr-%d", ci)
 		if r.Chance(1, 3) {
@@ -65,6 +66,10 @@ func genRenderData(r *vk.RNG, maxContainers int) []renderStream {
 			}
 			ne := r.Range(0, 6)
 			ts := base + int64(r.Intn(5))*1e9
+			if spread {
+				// one result spanning centuries (an archive next to a clock set wrong): 1700 ... 2200
+				ts = vk.Pick(r, []int64{-8520336000e9, -3786825600e9, 0, 1700000000e9, 7258118400e9}) + int64(r.Intn(5))*1e9
+			}
 			for e := 0; e < ne; e++ {
 				switch r.Intn(4) {
 				case 0: // equal timestamp
@@ -77,6 +82,10 @@ func genRenderData(r *vk.RNG, maxContainers int) []renderStream {
 				k := r.Range(0, 5)
 				for i := 0; i < k; i++ {
 					msg.WriteString(vk.Pick(r, c15MsgAtoms))
+				}
+				if r.Chance(1, 60) {
+					// a very long line (a dumped payload): longer than any buffer a renderer may assemble lines in
+					msg.WriteString(strings.Repeat(vk.Pick(r, []string{"x", "payload ", "ünï"}), vk.Pick(r, []int{70000, 9000, 140000})))
 				}
 				if r.Chance(1, 3) {
 					msg.WriteString(vk.Pick(r, []string{"\n", "\r\n", "\n\n", "\r", "\r\n\r\n"}))
